@@ -4,6 +4,8 @@ CONSTANTS
   Values = {"1"}
   Emit = FALSE
   N = 4
+  LKeyFns <- QuickKeyFns
+  LFaultModes <- QuickFaultModes
 SPECIFICATION LSpec
 INVARIANT TypeOK
 INVARIANT NamesUnique
